@@ -71,6 +71,11 @@ type mTable struct {
 	cols []string // physical columns in order; "-" marks a dropped column
 	idxs []*mIndex
 	rows map[int]map[string]string // key k -> column -> canonical value (non-empty only)
+	// further key columns (never renamed or dropped): p low cardinality and
+	// q unique form key(p,q); s is unique (key(s)), long if longKey so that
+	// this key's btree has more levels than the others
+	seqQ, seqS int
+	longKey    bool
 }
 
 type model struct {
@@ -88,7 +93,8 @@ func (m *model) clone() *model {
 		c.views[k] = v
 	}
 	for name, t := range m.tables {
-		ct := &mTable{name: t.name, cols: slices.Clone(t.cols), rows: make(map[int]map[string]string, len(t.rows))}
+		ct := &mTable{name: t.name, cols: slices.Clone(t.cols), rows: make(map[int]map[string]string, len(t.rows)),
+			seqQ: t.seqQ, seqS: t.seqS, longKey: t.longKey}
 		for _, ix := range t.idxs {
 			cix := *ix
 			cix.cols = slices.Clone(ix.cols)
@@ -154,6 +160,19 @@ func (t *mTable) hasLong(col string) bool {
 		}
 	}
 	return false
+}
+
+// keyCol: one of the generated key columns (their values are always present and unique by construction)
+func keyCol(c string) bool { return c == "k" || c == "p" || c == "q" || c == "s" }
+
+func (t *mTable) nkeys() int {
+	n := 0
+	for _, ix := range t.idxs {
+		if ix.mode == 'k' {
+			n++
+		}
+	}
+	return n
 }
 
 func (t *mTable) hasDeleted() bool { return slices.Contains(t.cols, "-") }
@@ -528,6 +547,22 @@ func lit(v string) string {
 
 // drawVal draws a value for column col of table t (canonical form, literal form).
 func (h *hist) drawVal(t *mTable, col string) (canon, literal string) {
+	switch col {
+	case "p":
+		v := "i:" + strconv.Itoa(h.uni("p", 4))
+		return v, lit(v)
+	case "q": // unique per table, descending so that key(p,q) orders rows unlike key(k)
+		t.seqQ++
+		v := "i:" + strconv.Itoa(100000-t.seqQ)
+		return v, lit(v)
+	case "s": // unique per table, scrambled order
+		t.seqS++
+		str := fmt.Sprintf("%c%c%d", 'a'+(t.seqS*7)%26, 'a'+(t.seqS*11)%26, t.seqS)
+		if t.longKey {
+			str += strings.Repeat("w", 150+(t.seqS*37)%200)
+		}
+		return canonStr(str), `"` + str + `"`
+	}
 	if fk := t.fkOf(col); fk != nil {
 		tt := h.m.tables[fk.fkT]
 		ks := tt.keys()
@@ -712,7 +747,7 @@ func (h *hist) refusedAction() {
 	}
 	k := ks[h.n("row", 0, len(ks)-1)]
 	var cmd string
-	switch h.n("refkind", 0, 3) {
+	switch h.uni("refkind", 5) {
 	case 0: // duplicate key
 		cmd = fmt.Sprintf("insert { k: %d } into %s", k, t.name)
 	case 1: // duplicate unique value
@@ -726,6 +761,10 @@ func (h *hist) refusedAction() {
 			if fk := t.fkOf(c); fk != nil {
 				cmd = fmt.Sprintf("insert { k: 998, %s: 77777 } into %s", c, t.name)
 			}
+		}
+	case 4: // duplicate in a secondary key only
+		if r := t.rows[k]; r["q"] != "" && t.findIndex([]string{"p", "q"}) != nil {
+			cmd = fmt.Sprintf("insert { k: 997, p: %s, q: %s, s: \"zz997\" } into %s", lit(r["p"]), lit(r["q"]), t.name)
 		}
 	case 3: // delete of a row with a blocking reference
 		if !h.m.canDelete(t, k) {
@@ -777,6 +816,16 @@ func (h *hist) createTable() {
 			t.cols = append(t.cols, c)
 		}
 	}
+	// 1-3 keys: key(k) always, often a composite key(p,q) and/or key(s)
+	if h.chance("keypq", 45) {
+		t.cols = append(t.cols, "p", "q")
+		t.idxs = append(t.idxs, &mIndex{mode: 'k', cols: []string{"p", "q"}})
+	}
+	if h.chance("keys", 45) {
+		t.cols = append(t.cols, "s")
+		t.idxs = append(t.idxs, &mIndex{mode: 'k', cols: []string{"s"}})
+		t.longKey = h.chance("longkey", 40)
+	}
 	has := func(c string) bool { return slices.Contains(t.cols, c) }
 	if h.chance("ixa", 50) {
 		t.idxs = append(t.idxs, &mIndex{mode: 'i', cols: []string{"a"}})
@@ -794,6 +843,27 @@ func (h *hist) createTable() {
 	}
 	if has("d") && h.chance("ixad", 25) {
 		t.idxs = append(t.idxs, &mIndex{mode: 'i', cols: []string{"a", "d"}})
+	}
+	if has("d") && h.chance("ixd", 20) {
+		t.idxs = append(t.idxs, &mIndex{mode: 'i', cols: []string{"d"}})
+	}
+	if has("d") && h.chance("ixda", 15) {
+		t.idxs = append(t.idxs, &mIndex{mode: 'i', cols: []string{"d", "a"}})
+	}
+	if has("p") && h.chance("ixp", 30) {
+		t.idxs = append(t.idxs, &mIndex{mode: 'i', cols: []string{"p"}})
+	}
+	if has("s") && has("b") && h.chance("ixsb", 15) {
+		t.idxs = append(t.idxs, &mIndex{mode: 'i', cols: []string{"s", "a"}})
+	}
+	// the order of the indexes in the request is generated: the first key is
+	// often not the smallest one (composite, or the long key(s))
+	for i := len(t.idxs) - 1; i > 0; i-- {
+		j := h.uni("ixorder", i+1)
+		t.idxs[i], t.idxs[j] = t.idxs[j], t.idxs[i]
+	}
+	if t.nkeys() >= 2 {
+		h.cnt["create_table_multikey"]++
 	}
 	var ix []string
 	for _, x := range t.idxs {
@@ -928,7 +998,7 @@ func (h *hist) alter() {
 	case 4: // rename a column
 		var cands []string
 		for _, c := range t.liveCols() {
-			if c != "k" {
+			if !keyCol(c) {
 				cands = append(cands, c)
 			}
 		}
